@@ -361,6 +361,9 @@ def features(spec):
                 f.add('siblings2+')
             if n >= 1:
                 f.add('optin-child')
+            # a non-dict (tuple) state is itself a container: opt-in objects among its items are container-held
+            if s[1] == 'RTuple' and any(_contains_optin(c, nodes) for a, c in s[2]):
+                f.add('optin-in-container-under-optin')
             # opt-in object held in a container (or plain object) that is itself below an opt-in object
             for a, c in s[2]:
                 if c[0] in ('L', 'T', 'D', 'P') and _contains_optin(c, nodes):
